@@ -115,4 +115,7 @@ fn run(ctx: &mut Ctx) {
         count_pool(c, st);
         case_fn(s, c, st)
     });
+    if ctx.tier == crate::runner::Tier::Thorough {
+        ctx.fuzz_campaign("fuzz_lang", 8000);
+    }
 }
